@@ -180,7 +180,7 @@ impl Ldap {
         (!(r matches Err(LdapError::OpSend)) && reply_of(sent(*final(self)).reply) is Err) ==> r is Err, //# C04.dropped_reply_channel_is_an_error
         // timeout
         r matches Err(LdapError::Timeout) ==> old(self).timeout is Some
-            && final(self).id_scrub_tx.log@ == old(self).id_scrub_tx.log@.push(final(self).last_id), //# C12.timeout_scrubs_own_id
+            && final(self).id_scrub_tx.log@ == old(self).id_scrub_tx.log@.push(final(self).last_id), //# C12+C13.timeout_scrubs_own_id
         !(r matches Err(LdapError::Timeout)) ==> final(self).id_scrub_tx.log@ == old(self).id_scrub_tx.log@, //# C12.no_scrub_without_timeout
         old(self).timeout is None ==> !(r matches Err(LdapError::Timeout)), //# C12.no_timer_without_timeout
 //@end
